@@ -16,7 +16,14 @@ for d in sorted(glob.glob('/verif/seeded/*')):
     demo_ok = (len(good) > 0 and any(dp.get(k, {}).get('rc', 0) != 0 for k in good)) if dw and dp else None
     if m.get('demo_confirmed_manually'):
         demo_ok = True
-    suite = conf.get('root_suite', {}).get('rc') if conf.get('root_suite') else None
+    suite = None
+    if conf.get('root_suite'):
+        # older entries recorded the exit status of the pipeline (tail's), not the suite's: judge by the output
+        tail = conf['root_suite'].get('tail', '')
+        lines = [l for l in tail.strip().split('\n') if l.strip() and not l.startswith('SUITE_RC')]
+        suite = 0 if (lines and lines[-1].strip() in ('PASS', 'ok') or 'SUITE_RC=0' in tail) else 1
+    if m.get('root_suite_rerun'):
+        suite = m['root_suite_rerun'].get('rc')
     pkg = conf.get('pkg_tests', {}).get('rc') if conf.get('pkg_tests') else None
     det = []
     for c, v in (m.get('checks_run') or {}).items():
